@@ -3,7 +3,7 @@
 # Confirms an independently written breaking change in its scratch worktree /tmp/seed-<ID>:
 # it compiles, the project's tests still pass, the demonstration fails with it and passes without it.
 set -u
-ID=$1; PKG=$2; PAT=$3; WT=/tmp/seed-$ID; OUT=/tmp/seed-out/$ID
+PFX=${SEEDPFX:-seed}; ID=$1; PKG=$2; PAT=$3; WT=/tmp/$PFX-$ID; OUT=/tmp/$PFX-out/$ID
 export GOFLAGS=-mod=mod GOPROXY=off GOSUMDB=off GOTOOLCHAIN=local
 cd $WT || exit 2
 git diff > $OUT/patch.confirmed.diff
@@ -12,9 +12,9 @@ go build ./pkg/... ./cmd/... && echo "BUILD ok" || { echo "BUILD FAILED"; exit 1
 go test -vet=off -count=1 ./pkg/... ./apis/... 2>&1 | grep -v "no test files" | grep -v "^ok" | grep -v "^[IEW][0-9]" | head -8
 echo "SUITE done (lines above, if any, are failures)"
 cp $OUT/demo_test.go $WT/$PKG/zz_seed_demo_test.go
-go test -count=1 -run "$PAT" ./$PKG/ > /tmp/seed-demo-with.log 2>&1; echo "demo WITH change: exit $? ($(grep -c '^--- FAIL\|^    --- FAIL' /tmp/seed-demo-with.log) failing tests)"
+go test -count=1 -run "$PAT" ./$PKG/ > /tmp/$PFX-demo-$ID-with.log 2>&1; echo "demo WITH change: exit $? ($(grep -c '^--- FAIL\|^    --- FAIL' /tmp/$PFX-demo-$ID-with.log) failing tests)"
 git stash -q -- $(git diff --name-only)
-go test -count=1 -run "$PAT" ./$PKG/ > /tmp/seed-demo-without.log 2>&1; echo "demo WITHOUT change: exit $?"
+go test -count=1 -run "$PAT" ./$PKG/ > /tmp/$PFX-demo-$ID-without.log 2>&1; echo "demo WITHOUT change: exit $?"
 git stash pop -q
 rm -f $WT/$PKG/zz_seed_demo_test.go
 git status --short
